@@ -317,3 +317,45 @@ func FuncKey(fn *ssa.Function) string {
 	}
 	return fn.String()
 }
+
+// CallExprAt finds the call expression whose left parenthesis is at pos.
+func (c *Ctx) CallExprAt(pos token.Pos) *ast.CallExpr {
+	if !pos.IsValid() {
+		return nil
+	}
+	for _, p := range c.Pkgs {
+		if !InModule(p.PkgPath) {
+			continue
+		}
+		for _, f := range p.Syntax {
+			if f.Pos() <= pos && pos < f.End() {
+				var found *ast.CallExpr
+				ast.Inspect(f, func(n ast.Node) bool {
+					if n == nil || found != nil {
+						return false
+					}
+					if n.Pos() > pos || n.End() <= pos {
+						return false
+					}
+					if ce, ok := n.(*ast.CallExpr); ok && ce.Lparen == pos {
+						found = ce
+						return false
+					}
+					return true
+				})
+				return found
+			}
+		}
+	}
+	return nil
+}
+
+// CallText renders a call instruction's source text ("f(a, b)"), for
+// position-free obligation keys.
+func (c *Ctx) CallText(pos token.Pos) string {
+	ce := c.CallExprAt(pos)
+	if ce == nil {
+		return "call@?"
+	}
+	return types.ExprString(ce)
+}
